@@ -467,6 +467,9 @@ func c04Run(t *testing.T, c *choice.Stream, r *Result, opt RunOpt, forced *c04Fo
 		if c.Bool("backpressure", 1, 4) {
 			conn.Window = c.Pick("window", 8, 64, 512) // the sender may be blocked inside Write when the fault lands
 		}
+		if sc.kind == "insert" && (faultName == "exception" || faultName == "cut_rst" || faultName == "cut_fin") && c.Bool("backpressure.insert", 1, 2) {
+			conn.Window = c.Pick("window.insert", 8, 8, 64) // an exception or a cut while a data block is half-way out
+		}
 		conn.CloseErr = c.Bool("close_err", 1, 4) // releasing the connection reports an error
 		r.Cell = fmt.Sprintf("%s/%s/comp%d", sc.kind, faultName, cf.Comp)
 		r.Sample = map[string]any{"kind": sc.kind, "fault": faultName, "client_rev": cf.ClientRev, "server_rev": cf.ServerRev, "compression": cf.Comp.String(),
